@@ -41,6 +41,7 @@ RULES = {
     "R2": "`for (i, x) in E.iter().enumerate() {` -> index while loop",
     "R3": "`for (i, b) in X.iter_mut().enumerate() { *b .. }` / `for b in X.iter_mut()` -> index loop with X[i]",
     "R4": "`for i in (a..b).rev() {` -> descending while loop",
+    "R5": "consuming map iteration `for (k, v) in M {` -> `for (k__r, v__r) in M.iter() { let k = *k__r; let v = *v__r;` (M dead afterwards; value type made Copy in the assembled file, so the copy equals the moved value)",
     "R7": "error-constructor expression `ParseError::X {..}` -> opaque `mk_err()`",
     "R9": "`E as <int>` -> `#[verifier::truncate] (E as <int>)` (Rust `as` is truncation)",
     "R10": "byte-string literal -> array literal of the same bytes",
@@ -326,6 +327,7 @@ def parse_opts(words):
     for w in words:
         if "=" in w and not w.startswith("="):
             k, v = w.split("=", 1); opts[k] = v
+        elif w in ("opt", "novac"): opts[w] = "1"
         else: pos.append(w)
     return pos, opts
 
@@ -477,11 +479,25 @@ def build_item(cur, log):
         fsec = {x.kind: x for x in secs}
         body = sf.src[sf.toks[ob].end:sf.toks[cb].start]
         boff = sf.toks[ob].end
-        first = fsec["first"].text.strip(); last = fsec["last"].text.strip()
-        if body.count(first) != 1 or body.count(last) < 1:
-            raise ExtractError(f"lost-anchor: block {name} in {pos[1]} (first x{body.count(first)}, last x{body.count(last)})")
-        a = body.index(first)
-        b = body.index(last, a) + len(last)
+        # alternatives separated by a line `|||`: the block starts at the earliest `first` anchor and ends at the latest
+        # `last` anchor, so that reordering the anchored statements does not lose the block
+        firsts = [x.strip() for x in fsec["first"].text.split("|||") if x.strip()]
+        lasts = [x.strip() for x in fsec["last"].text.split("|||") if x.strip()]
+        for anc in firsts + lasts:
+            if body.count(anc) != 1:
+                raise ExtractError(f"lost-anchor: block {name} in {pos[1]}: anchor occurs {body.count(anc)}x: {anc[:50]!r}")
+        a = min(body.index(x) for x in firsts)
+        b = max(body.index(x) + len(x) for x in lasts)
+        if b <= a: raise ExtractError(f"lost-anchor: block {name}: anchors out of order")
+        # extend the end so that every brace opened inside the block is closed (anchors may end inside a nested statement)
+        depth = 0
+        for tk in lex(body[a:]):
+            if tk.kind == "punct" and tk.text in OPEN_SET: depth += 1
+            elif tk.kind == "punct" and tk.text in CLOSE_SET:
+                depth -= 1
+                if depth < 0: raise ExtractError(f"lost-anchor: block {name}: unbalanced block")
+            if a + tk.end >= b and depth == 0:
+                b = max(b, a + tk.end); break
         params = fsec["params"].text.strip()
         tail = fsec["tail"].text if "tail" in fsec else ""
         head = f"fn {name}{params} {{\n"
@@ -555,6 +571,27 @@ def build_item(cur, log):
                     ed.insert(toks[last].end, ".iter()")
                 ed.insert(toks[lo_].end, f" let {v} = *{v}__r;")
                 log.append(("R1", where, text[toks[lk].start:toks[lo_].end]))
+    if "R5" in rules:
+        # consuming iteration over a map: `for (k, v) in M {` -> `for (k__r, v__r) in M.iter() { let k = *k__r; let v = *v__r;`
+        for n_, (lk, lo_, lc_) in enumerate(loops):
+            if toks[lk].text != "for": continue
+            a1 = next_code(toks, lk)
+            if toks[a1].text != "(": continue
+            a2 = match_forward(toks, a1)
+            a3 = next_code(toks, a2)
+            if toks[a3].text != "in": continue
+            last = prev_code(toks, lo_)
+            expr = text[toks[a3].end:toks[last].end].strip()
+            names = [x.text for x in toks[a1 + 1:a2] if x.kind == "ident"]
+            if len(names) != 2 or expr.endswith(")") or expr.startswith("&"): continue
+            # the consumed map must be dead after the loop
+            base_id = expr.split(".")[0]
+            if re.search(r"\b" + re.escape(expr) + r"\b", text[toks[lc_].end:]):
+                raise ExtractError(f"unsupported-construct: {where}: R5 needs `{expr}` dead after the loop")
+            ed.replace(toks[a1].start, toks[a2].end, f"({names[0]}__r, {names[1]}__r)")
+            ed.insert(toks[last].end, ".iter()")
+            ed.insert(toks[lo_].end, f" let {names[0]} = *{names[0]}__r; let {names[1]} = *{names[1]}__r;")
+            log.append(("R5", where, text[toks[lk].start:toks[lo_].end]))
     if "R2" in rules:
         for n_, (lk, lo_, lc_) in enumerate(loops):
             if toks[lk].text != "for": continue
@@ -625,8 +662,15 @@ def build_item(cur, log):
             log.append(("R4", where, hdr.strip()))
     for x in secs:
         if x.kind in ("loop", "loop_begin", "loop_end", "after", "before"):
-            kidx = int(x.arg)
+            if x.arg.startswith("~"):
+                hits = [n for n, (a_, b_, c_) in enumerate(loops) if x.arg[1:] in text[toks[a_].start:toks[b_].start]]
+                kidx = hits[0] if len(hits) == 1 else len(loops) + 1
+            else:
+                kidx = int(x.arg)
             if kidx >= len(loops):
+                if "opt" in x.opts or x.opts.get("opt"):
+                    log.append(("skip", where, f"optional {x.kind} {kidx}: loop not present"))
+                    continue
                 raise ExtractError(f"lost-anchor: {where}: loop {kidx} not found ({len(loops)} loops)")
             lk, lo_, lc_ = loops[kidx]
             if x.kind == "loop":
